@@ -92,6 +92,18 @@ Theorem C04_float_edge :
 Proof. exact checkTimeF_edge_ok. Qed.
 Print Assumptions C04_float_edge.
 
+(** A witness that the float64 comparison is NOT exact on the millisecond grid for instants after
+    January 2038 (known finding float64-availability-after-2038, reported by the thorough tier of C09):
+    the exact test accepts the request at the advertised millisecond, the float64 test refuses it
+    "too early by 0 ms". [C04_microsecond_grid] speaks about [checkTimeU], the microsecond comparison
+    evaluated exactly; the statements about served phases carry the range in which the two agree. *)
+Theorem C04_float_after_2038_refuted :
+  checkTime  (345291765 * 60060 + 1600000000 * 30000) 30000 2291274113430 60 (Some 100) = TvOk /\
+  checkTimeF (345291765 * 60060 + 1600000000 * 30000) 30000 2291274113430 60 (Some 100) = TvTooEarly 0 /\
+  checkTimeF (345291765 * 60060 + 1600000000 * 30000) 30000 2291274113431 60 (Some 100) = TvOk.
+Proof. exact checkTimeF_after_2038. Qed.
+Print Assumptions C04_float_after_2038_refuted.
+
 (** The margin used by the model is the constant of the Go source (regenerated on every run). *)
 Theorem C04_margin_const : Consts.app_timeShiftBufferDepthMarginS = tsbdMarginS
                            /\ Consts.app_defaultTimeShiftBufferDepthS = 60.
